@@ -143,36 +143,60 @@ func (x *execState) runOp(i int, capture bool) (res opResult) {
 	}
 	verifsim.BeginOp(x.orderCfg(i, capture))
 	defer func() { res.visits = verifsim.EndOp() }()
-	switch op.Kind {
-	case "load":
-		sc, err := gqlparser.LoadSchema(src())
-		if err == nil {
-			x.schemas[op.S] = sc
-		}
-		res.obs = append(res.obs, Obs{lkey, gen.RenderError(err), i})
-	case "fresh":
-		sc, err := gqlparser.LoadSchema(src())
-		res.obs = append(res.obs, Obs{lkey, gen.RenderError(err), i})
-		if err == nil {
-			_, errs := validateText(sc, s.Docs[op.D])
+	pan := protect(func() {
+		switch op.Kind {
+		case "load":
+			sc, err := gqlparser.LoadSchema(src())
+			if err == nil {
+				x.schemas[op.S] = sc
+			}
+			res.obs = append(res.obs, Obs{lkey, gen.RenderError(err), i})
+		case "fresh":
+			sc, err := gqlparser.LoadSchema(src())
+			res.obs = append(res.obs, Obs{lkey, gen.RenderError(err), i})
+			if err == nil {
+				_, errs := validateText(sc, s.Docs[op.D])
+				res.obs = append(res.obs, Obs{vkey, gen.RenderErrors(errs), i})
+			}
+		case "first":
+			doc, errs := validateText(x.schemas[op.S], s.Docs[op.D])
+			if doc != nil {
+				x.docs[[2]int{op.S, op.D}] = doc
+			}
 			res.obs = append(res.obs, Obs{vkey, gen.RenderErrors(errs), i})
+		case "again":
+			errs := validator.Validate(x.schemas[op.S], x.docs[[2]int{op.S, op.D}])
+			res.obs = append(res.obs, Obs{vkey, gen.RenderErrors(errs), i})
+		case "query":
+			_, errs := gqlparser.LoadQuery(x.schemas[op.S], s.Docs[op.D])
+			res.obs = append(res.obs, Obs{vkey, gen.RenderErrors(errs), i})
+		default:
+			res.skipped = true
 		}
-	case "first":
-		doc, errs := validateText(x.schemas[op.S], s.Docs[op.D])
-		if doc != nil {
-			x.docs[[2]int{op.S, op.D}] = doc
+	})
+	if pan != "" {
+		// a panic is the library's answer for these texts (C02's subject, not
+		// C10's): it is compared like any other result
+		k := vkey
+		if op.Kind == "load" || (op.Kind == "fresh" && len(res.obs) == 0) {
+			k = lkey
 		}
-		res.obs = append(res.obs, Obs{vkey, gen.RenderErrors(errs), i})
-	case "again":
-		errs := validator.Validate(x.schemas[op.S], x.docs[[2]int{op.S, op.D}])
-		res.obs = append(res.obs, Obs{vkey, gen.RenderErrors(errs), i})
-	case "query":
-		_, errs := gqlparser.LoadQuery(x.schemas[op.S], s.Docs[op.D])
-		res.obs = append(res.obs, Obs{vkey, gen.RenderErrors(errs), i})
-	default:
-		res.skipped = true
+		res.obs = append(res.obs, Obs{k, pan, i})
+		panicsSeen++
 	}
 	return
+}
+
+var panicsSeen int
+
+func protect(f func()) (p string) {
+	defer func() {
+		if r := recover(); r != nil {
+			p = fmt.Sprint("panic: ", r)
+		}
+	}()
+	f()
+	return ""
 }
 
 type sessionRun struct {
@@ -460,6 +484,8 @@ type c10Stats struct {
 	Samples           []*Session        `json:"samples,omitempty"`
 	CanonDigest       map[string]uint64 `json:"canon_digest,omitempty"`
 	Log               []string          `json:"log,omitempty"`
+
+	unknownViolations int
 }
 
 func hashStr(s string) uint64 {
@@ -506,7 +532,14 @@ func c10Main(args []string) {
 	sources := fs.String("sources", "corpus,gen", "workload sources")
 	canonical := fs.Bool("canonical", false, "force the canonical order in every session (cross-process / pristine comparison); records a digest per key")
 	evlog := fs.Bool("evlog", false, "record a full event log (determinism self-test)")
+	known := fs.String("known", "", "violation classes (separated by ;;) that are listed known findings: recorded, exploration continues")
 	fs.Parse(args)
+	knownSet := map[string]bool{}
+	for _, k := range strings.Split(*known, ";;") {
+		if k != "" {
+			knownSet[k] = true
+		}
+	}
 
 	if !instrumented() && !*canonical {
 		fatal(2, "c10 exploration needs an instrumented build")
@@ -534,7 +567,7 @@ func c10Main(args []string) {
 		if *maxSessions == 0 && time.Since(t0) > *wall {
 			break
 		}
-		if len(st.Violations) > 0 {
+		if st.unknownViolations > 0 || len(st.Violations) >= 25 {
 			break
 		}
 		sseed := gen.Mix(wseed, uint64(n))
@@ -669,6 +702,9 @@ func c10Main(args []string) {
 		if w != nil {
 			v := reportC10(bad, w, *replayDir, *worker)
 			st.Violations = append(st.Violations, v)
+			if !knownSet[v.Class] {
+				st.unknownViolations++
+			}
 		}
 		if n < 3 || (n%997 == 0 && len(st.Samples) < 6) {
 			st.Samples = append(st.Samples, sampleOf(explicitForm(s, r)))
@@ -683,6 +719,7 @@ func c10Main(args []string) {
 		st.EffectiveHashes = append(st.EffectiveHashes, h)
 	}
 	sort.Slice(st.EffectiveHashes, func(i, j int) bool { return st.EffectiveHashes[i] < st.EffectiveHashes[j] })
+	st.Probes["panics_recovered"] = panicsSeen
 	st.WallS = time.Since(t0).Seconds()
 	writeJSON(*out, st)
 }
@@ -1139,4 +1176,34 @@ func c10DigestMain(args []string) {
 		}
 	}
 	writeJSON(*out, map[string]interface{}{"instrumented": instrumented(), "entries": res})
+}
+
+// c10ConfirmMain: on an UNINSTRUMENTED build, run the replay's operations many
+// times under the real runtime's map order and report the distinct renderings
+// of the witness key ("confirmed on the real runtime").
+func c10ConfirmMain(args []string) {
+	fs := flag.NewFlagSet("c10-confirm", flag.ExitOnError)
+	reps := fs.Int("reps", 500, "repetitions")
+	out := fs.String("out", "-", "result file")
+	fs.Parse(args)
+	var rp c10Replay
+	readJSON(fs.Arg(0), &rp)
+	if rp.Session == nil || rp.Witness == nil {
+		fatal(2, "bad replay file")
+	}
+	seen := map[string]int{}
+	for i := 0; i < *reps; i++ {
+		r := runSession(rp.Session, false)
+		for _, o := range r.obs {
+			if o.Key == rp.Witness.Key {
+				seen[o.Rendering]++
+			}
+		}
+	}
+	var rs []string
+	for k := range seen {
+		rs = append(rs, k)
+	}
+	sort.Strings(rs)
+	writeJSON(*out, map[string]interface{}{"distinct": len(rs), "renderings": rs, "instrumented": instrumented()})
 }
